@@ -303,9 +303,9 @@ NEED = {
 SS = {"quick": (1000, 2500, 5000), "thorough": (500, 1000, 2500, 4000, 5000)}
 IS = {"quick": (2500, 5000, 7500), "thorough": (2500, 5000, 7500, 10000)}
 MS = {"quick": (5000, 7500, 12500, 20000, 50000), "thorough": (2500, 5000, 7500, 12500, 20000, 50000)}
-HS = {"quick": (20000, 31000), "thorough": (20000, 31000, 60000)}
+HS = {"quick": (20000, 31000), "thorough": (31000, 60000)}
 CHANGE = {"quick": ((2500, 5000, 7500), (5000, 5000, 20000), (1000, 2500, 12500)),
-          "thorough": ((2500, 5000, 7500), (5000, 5000, 20000), (1000, 2500, 12500), (2500, 7500, 5000), (4000, 10000, 50000), (500, 2500, 2500))}
+          "thorough": ((2500, 5000, 7500), (5000, 5000, 20000), (1000, 2500, 12500), (4000, 10000, 50000), (500, 2500, 2500))}
 EPS = 1000
 
 
